@@ -33,6 +33,10 @@ pub struct Shared {
     pub runaway_total: AtomicU64,
     /// what the metered thread is doing (set by the engine before each guarded operation)
     pub current_op: std::sync::Mutex<String>,
+    /// per-case override of `HARD_TOTAL` (0 = use the constant); C03 scales the guard with the case's budget
+    pub hard_total: AtomicU64,
+    /// per-case limit on the live bytes of a metered thread (0 = none)
+    pub hard_live: AtomicU64,
 }
 
 struct State {
@@ -40,6 +44,9 @@ struct State {
     count: Cell<u64>,
     total: Cell<u64>,
     max: Cell<u64>,
+    /// bytes requested and not yet released while metering (C03: peak of live bytes)
+    live: Cell<u64>,
+    peak: Cell<u64>,
     log_len: Cell<usize>,
     log_overflow: Cell<bool>,
     log: UnsafeCell<[u64; LOG_CAP]>,
@@ -49,6 +56,7 @@ struct State {
 thread_local! {
     static ST: State = const { State {
         on: Cell::new(false), count: Cell::new(0), total: Cell::new(0), max: Cell::new(0),
+        live: Cell::new(0), peak: Cell::new(0),
         log_len: Cell::new(0), log_overflow: Cell::new(false),
         log: UnsafeCell::new([0; LOG_CAP]), shared: Cell::new(std::ptr::null()),
     } };
@@ -69,6 +77,11 @@ fn note(size: usize) {
         if sz > s.max.get() {
             s.max.set(sz);
         }
+        let live = s.live.get().saturating_add(sz);
+        s.live.set(live);
+        if live > s.peak.get() {
+            s.peak.set(live);
+        }
         if size >= LOG_MIN {
             let n = s.log_len.get();
             if n < LOG_CAP {
@@ -78,8 +91,10 @@ fn note(size: usize) {
                 s.log_overflow.set(true);
             }
         }
-        if sz > HARD_SINGLE || total > HARD_TOTAL {
-            let p = s.shared.get();
+        let p = s.shared.get();
+        let hard_total = if p.is_null() { HARD_TOTAL } else { match unsafe { (*p).hard_total.load(Ordering::Relaxed) } { 0 => HARD_TOTAL, n => n } };
+        let hard_live = if p.is_null() { u64::MAX } else { match unsafe { (*p).hard_live.load(Ordering::Relaxed) } { 0 => u64::MAX, n => n } };
+        if sz > HARD_SINGLE || total > hard_total || live > hard_live {
             if !p.is_null() {
                 unsafe {
                     (*p).runaway_total.store(total, Ordering::SeqCst);
@@ -94,6 +109,17 @@ fn note(size: usize) {
     });
 }
 
+/// a block goes back to the allocator (blocks that were requested before metering started are
+/// released too: the count saturates at 0, so the peak is a lower bound of the true peak)
+#[inline]
+fn release(size: usize) {
+    let _ = ST.try_with(|s| {
+        if s.on.get() {
+            s.live.set(s.live.get().saturating_sub(size as u64));
+        }
+    });
+}
+
 unsafe impl GlobalAlloc for Meter {
     #[inline]
     unsafe fn alloc(&self, l: Layout) -> *mut u8 {
@@ -102,6 +128,7 @@ unsafe impl GlobalAlloc for Meter {
     }
     #[inline]
     unsafe fn dealloc(&self, p: *mut u8, l: Layout) {
+        release(l.size());
         System.dealloc(p, l)
     }
     #[inline]
@@ -113,6 +140,7 @@ unsafe impl GlobalAlloc for Meter {
     unsafe fn realloc(&self, p: *mut u8, l: Layout, new_size: usize) -> *mut u8 {
         // a growing `Vec`/`String`: the new block is what is being asked for
         note(new_size);
+        release(l.size());
         System.realloc(p, l, new_size)
     }
 }
@@ -123,6 +151,8 @@ pub struct Stats {
     pub count: u64,
     pub total: u64,
     pub max: u64,
+    /// largest number of bytes requested and not yet released at one time (lower bound)
+    pub peak: u64,
     /// sizes of the requests ≥ `LOG_MIN` bytes, in order (at most `LOG_CAP`)
     pub log: Vec<u64>,
     pub log_overflow: bool,
@@ -134,6 +164,8 @@ pub fn start(shared: &Arc<Shared>) {
         s.count.set(0);
         s.total.set(0);
         s.max.set(0);
+        s.live.set(0);
+        s.peak.set(0);
         s.log_len.set(0);
         s.log_overflow.set(false);
         s.shared.set(Arc::as_ptr(shared));
@@ -156,7 +188,7 @@ pub fn stop() -> Stats {
         s.on.set(false);
         let n = s.log_len.get();
         let log = unsafe { (&(*s.log.get()))[..n].to_vec() };
-        Stats { count: s.count.get(), total: s.total.get(), max: s.max.get(), log, log_overflow: s.log_overflow.get() }
+        Stats { count: s.count.get(), total: s.total.get(), max: s.max.get(), peak: s.peak.get(), log, log_overflow: s.log_overflow.get() }
     })
 }
 
@@ -169,6 +201,7 @@ pub fn lap() -> Stats {
         s.count.set(0);
         s.total.set(0);
         s.max.set(0);
+        s.peak.set(s.live.get());
         s.log_len.set(0);
         s.log_overflow.set(false);
         s.shared.set(shared);
